@@ -139,6 +139,11 @@ func (u *Universe) loadSpecTables(specDir string) (*SpecTables, string, error) {
 			fmt.Fprintf(&sb, "(define-fun %s_SEV_Unknown () Int %d)\n", v, un)
 			// severity of a score k/10 on the rating scale of the specification
 			fmt.Fprintf(&sb, "(define-fun %s_sev_of_k ((k Int)) Int %s%d%s)\n", v, strings.Join(chain, ""), un, strings.Repeat(")", len(chain)))
+			var alts []string
+			for _, sv := range f.Severity {
+				alts = append(alts, fmt.Sprintf("(= x %d)", sv.N))
+			}
+			fmt.Fprintf(&sb, "(define-fun valid_%s_SEV ((x Int)) Bool (or %s))\n", v, strings.Join(alts, " "))
 		}
 		for _, m := range f.Metrics {
 			un, err := lookup(m.Unknown)
